@@ -84,4 +84,11 @@ for _ in range(300):
     b = [rng.randint(0, 3) for _ in range(n)]
     d2 = dict(zip(b, range(n)))
     ok(all(d2[b[j]] >= j and b[d2[b[j]]] == b[j] for j in range(n)), "dict(zip(keys, range)): the last row carrying the key")
+# --- int.bit_length(): 0 <= k <= |v|, k == 0 iff v == 0   (pyvc/models.py: scalar_attr)
+for v in list(range(-300, 301)) + [rng.randint(-10**12, 10**12) for _ in range(300)] + [int(np.int64(rng.randint(0, 2**40))) for _ in range(50)]:
+    k = v.bit_length()
+    ok(0 <= k <= abs(v) and (k == 0) == (v == 0), "int.bit_length bounds")
+# --- a column list with a repeated label keeps BOTH copies in pandas (the model refuses it: its columns are keyed by label)
+dfr = pd.DataFrame({"x": [1.0, 2.0], "y": [3.0, 4.0]})
+ok(dfr[["x", "y", "y"]].shape == (2, 3), "df[[x, y, y]] has three columns")
 print("xcheck_C18: all", N, "model facts hold on the real library")
